@@ -19,3 +19,26 @@ def buffer_cases(pid):
             par = tuple(bytes.fromhex(p) if isinstance(p, str) and c['op'] in ('new', 'eqbytes', 'hashkey') and i == 0 else p for i, p in enumerate(c['params']))
             out.append((c['op'], [tuple(o) for o in c['operands']], par))
     return out
+
+
+def run_schc(rep, pid):
+    """SCHC-layer corpus cases of a property: replayed through the same batch machinery as generated cases."""
+    cases = [c for c in _load('schc.json') if pid in c['properties']]
+    if not cases:
+        return
+    from p_schc_common import lib_pdesc, lib_rule
+    from schc_run import Batch, case_compress, case_decompress, case_match
+    from schc_util import DIRS
+    from core import L, R
+    b = Batch(rep)
+    for c in cases:
+        k = c['case']
+        d = None if k.get('direction', 'N') == 'N' else DIRS[k['direction']]
+        if k['op'] == 'compress':
+            case_compress(b, lib_pdesc(k['pdesc']), lib_rule(k['rule']), d, klass='corpus:compress')
+        elif k['op'] == 'decompress':
+            case_decompress(b, k['schc'], lib_rule(k['rule']), d, klass='corpus:decompress', expect=k.get('expect'), side=L if k.get('side') == 'L' else R)
+        elif k['op'] == 'match':
+            case_match(b, lib_pdesc(k['pdesc']), [lib_rule(r) for r in k['rules']], klass='corpus:match')
+    n = b.run()
+    rep.notes.append('SCHC regression corpus: %d cases, %d failing' % (len(cases), n))
